@@ -50,6 +50,7 @@ impl KeyCampaign {
       Source::Random | Source::Dist => {
         let o = LayoutOpts {
           weird: rng.chance(1, 4),
+          related: rng.chance(1, 2),
           absorbing: match self.absorbing { Some(b) => b, None => rng.chance(1, 2) },
           norepeat: self.force_norepeat || rng.chance(1, 2),
           special: self.force_special || rng.chance(1, 2),
@@ -58,13 +59,14 @@ impl KeyCampaign {
           edge_times: false,
         };
         let dist = self.source == Source::Dist;
+        let motif = !dist && rng.chance(1, 3);
         let mut tries = 0;
         loop {
-          let l = if dist { gen_dist_layout(&mut rng, &o) } else { gen_layout(&mut rng, &o) };
+          let l = if dist { gen_dist_layout(&mut rng, &o) } else if motif { gen_motif_layout(&mut rng, &o) } else { gen_layout(&mut rng, &o) };
           tries += 1;
           // every generated layout goes through the real parser and converter
           match through_loader(&l) {
-            Some(l2) => break (l2, if dist { "dist".to_string() } else { "random".to_string() }, dist),
+            Some(l2) => break (l2, if dist { "dist".to_string() } else if motif { "random-alias-motif".to_string() } else { "random".to_string() }, dist),
             None => { if tries > 20 { break (Layout { mappings: vec![] }, "empty-fallback".to_string(), false); } }
           }
         }
